@@ -16,6 +16,7 @@ Section CachedEval.
   Variable dom : Syntax.key -> list val.
   Variable U : list Syntax.key.
   Variable c : cond.
+  Variable ywf : bool.                      (* the mode the cached node is evaluated in: are false rows asked for? *)
   Hypothesis U_ne : U <> [].
   Hypothesis dom_nodup : forall x, In x U -> NoDup (dom x).
   Hypothesis dom_ne : forall x, In x U -> dom x <> [].
@@ -85,7 +86,7 @@ Section CachedEval.
   (* ---------- the operator ---------- *)
   Definition flagn (fl : bool) : nat := if fl then 1 else 0.
   Definition f (L : assignment) : list entry :=
-    map (fun r => (encB (restrU (fst r)), flagn (snd r))) (eval h dom c (decB L) true).
+    map (fun r => (encB (restrU (fst r)), flagn (snd r))) (eval h dom c (decB L) ywf).
   Definition asked (L : assignment) : Prop := exists b, wf b /\ L = encB b /\ binds_some U L = true.
 
   (* every total assignment over the domains, as a binding over U *)
@@ -104,7 +105,9 @@ Section CachedEval.
         apply in_map_iff. exists b. split; [reflexivity|]. apply IH. split; [exact E|]. intros k w I. apply D. now right.
   Qed.
   Definition env_of (b : binding) : env := fun x => match lookup b x with Some v => v | None => VA ANone end.
-  Definition rel : list entry := map (fun b => (encB b, flagn (negb (isat h dom c (env_of b))))) (prod U).
+  (* ... those the node yields a row for: all of them when false rows are asked for, the satisfying ones otherwise *)
+  Definition rel : list entry :=
+    map (fun b => (encB b, flagn (negb (isat h dom c (env_of b))))) (filter (fun b => ywf || isat h dom c (env_of b)) (prod U)).
 
   Lemma lookup_keys (b : binding) k : In k (map fst b) -> exists v, lookup b k = Some v.
   Proof.
@@ -168,19 +171,27 @@ Section CachedEval.
   Qed.
 
   (* the flag of a row that agrees with a total assignment is decided by the truth of the condition *)
-  Lemma row_flag b0 b' fl e : agreesb U b0 e = true -> valid dom U e -> In (b', fl) (eval h dom c b0 true) -> agreesb U b' e = true ->
-    fl = negb (isat h dom c e).
+  Lemma row_flag b0 b' fl e : agreesb U b0 e = true -> valid dom U e -> In (b', fl) (eval h dom c b0 ywf) -> agreesb U b' e = true ->
+    fl = negb (isat h dom c e) /\ (ywf || isat h dom c e) = true.
   Proof.
-    intros A V I Ab. destruct (eval_cover h dom U dom_nodup c c_basic b0 true e A V) as [Cf Ct].
+    intros A V I Ab. destruct (eval_cover h dom U dom_nodup c c_basic b0 ywf e A V) as [Cf Ct].
     pose proof (cover_ge fl _ b' e I Ab) as G. destruct fl.
-    - rewrite Ct in G. cbn [andb] in G. destruct (isat h dom c e); [cbn in G; lia | reflexivity].
-    - rewrite Cf in G. destruct (isat h dom c e); [reflexivity | cbn in G; lia].
+    - rewrite Ct in G. destruct ywf; cbn [andb] in G; [|cbn in G; lia]. destruct (isat h dom c e); [cbn in G; lia | now split].
+    - rewrite Cf in G. destruct (isat h dom c e); [split; [reflexivity | apply Bool.orb_true_r] | cbn in G; lia].
   Qed.
 
   (* ---------- the five hypotheses of IndexedMemo_Den, and [once] ---------- *)
+  Lemma in_rel a o : In (a, o) rel <->
+    exists bf, In bf (prod U) /\ (ywf || isat h dom c (env_of bf)) = true /\ a = encB bf /\ o = flagn (negb (isat h dom c (env_of bf))).
+  Proof.
+    unfold rel. rewrite in_map_iff. split.
+    - intros (bf & E & H). apply filter_In in H as [H1 H2]. injection E as <- <-. now exists bf.
+    - intros (bf & H1 & H2 & -> & ->). exists bf. split; [reflexivity|]. apply filter_In. now split.
+  Qed.
+
   Lemma rel_full b o : In (b, o) rel -> full U b = true.
   Proof.
-    unfold rel. intros H. apply in_map_iff in H as (bf & E & Hb). injection E as <- _. unfold full. apply forallb_forall. intros x Hx.
+    intros H. apply in_rel in H as (bf & Hb & _ & -> & _). unfold full. apply forallb_forall. intros x Hx.
     unfold bound_at. now rewrite aget_encB, (prod_lookup bf x Hb Hx).
   Qed.
 
@@ -201,12 +212,12 @@ Section CachedEval.
     - apply in_map_iff in H as ([b1 v1] & E & H). injection E as <- _. cbn [fst]. eapply IH; eassumption.
   Qed.
 
-  Lemma cmp_extends t1 t2 resf b ywf b' fl : tclosed U t1 = true -> tclosed U t2 = true ->
-    In (b', fl) (cmp_rows h dom t1 t2 resf b ywf) -> extends b b'.
+  Lemma cmp_extends t1 t2 resf b yw b' fl : tclosed U t1 = true -> tclosed U t2 = true ->
+    In (b', fl) (cmp_rows h dom t1 t2 resf b yw) -> extends b b'.
   Proof.
     unfold tclosed, cmp_rows. intros C1 C2 H. apply andb_prop in C1 as [F1 _]. apply andb_prop in C2 as [F2 _].
     apply in_flat_map in H as ([b1 v1] & H1 & H). apply in_flat_map in H as ([b2 v2] & H2 & H). cbn [fst snd] in *.
-    destruct (resf v1 v2 || ywf); [|destruct H]. destruct H as [H|[]]. injection H as <- _.
+    destruct (resf v1 v2 || yw); [|destruct H]. destruct H as [H|[]]. injection H as <- _.
     exact (extends_trans _ _ _ (term_extends t1 F1 b b1 v1 H1) (term_extends t2 F2 b1 b2 v2 H2)).
   Qed.
 
@@ -219,17 +230,17 @@ Section CachedEval.
       eapply extends_trans; [eapply term_extends; eassumption | now apply IH].
   Qed.
 
-  Lemma eval_extends c0 : basic U c0 = true -> forall b ywf b' fl, In (b', fl) (eval h dom c0 b ywf) -> extends b b'.
+  Lemma eval_extends c0 : basic U c0 = true -> forall b yw b' fl, In (b', fl) (eval h dom c0 b yw) -> extends b b'.
   Proof.
-    induction c0 as [o l r|t inv|x IHx y IHy|x IHx y IHy|u c0 IH|sel c0 IH]; intros B b ywf b' fl H; cbn [basic] in B; try discriminate.
+    induction c0 as [o l r|t inv|x IHx y IHy|x IHx y IHy|u c0 IH|sel c0 IH]; intros B b yw b' fl H; cbn [basic] in B; try discriminate.
     - cbn [eval] in H. apply andb_prop in B as [Cl Cr].
       destruct (bound_in r b); [eapply (cmp_extends r l) | eapply (cmp_extends l r)]; eassumption.
     - cbn [eval] in H. apply in_flat_map in H as ([b1 v1] & H1 & H). cbn [fst snd] in H.
-      destruct (ywf || negb (negb (xorb inv (truthy v1)))); [|destruct H]. destruct H as [H|[]]. injection H as <- _.
+      destruct (yw || negb (negb (xorb inv (truthy v1)))); [|destruct H]. destruct H as [H|[]]. injection H as <- _.
       unfold tclosed in B. apply andb_prop in B as [Ft _]. eapply term_extends; eassumption.
     - cbn [eval] in H. apply andb_prop in B as [Bx By]. apply in_flat_map in H as ([b1 f1] & H1 & H). cbn [fst snd] in H.
       destruct f1.
-      + destruct ywf; [|destruct H]. destruct H as [H|[]]. injection H as <- _. eapply IHx; eassumption.
+      + destruct yw; [|destruct H]. destruct H as [H|[]]. injection H as <- _. eapply IHx; eassumption.
       + eapply extends_trans; [eapply IHx; eassumption | eapply IHy; eassumption].
     - cbn [eval] in H. apply andb_prop in B as [Bx By]. destruct (eval h dom x b true) as [|p ls] eqn:E.
       + eapply IHy; eassumption.
@@ -248,7 +259,7 @@ Section CachedEval.
   Proof.
     intros AL H. destruct (asked_dec L AL) as (b0 & W & -> & D & BS). unfold f in H. rewrite D in H.
     apply in_map_iff in H as ([b' fl] & E & H). cbn [fst snd] in E. injection E as <- <-.
-    pose proof (eval_extends c c_basic b0 true b' fl H) as X.
+    pose proof (eval_extends c c_basic b0 ywf b' fl H) as X.
     assert (S : sub_on U (encB b0) (encB (restrU b')) = true).
     { unfold sub_on. apply forallb_forall. intros x Hx. rewrite !aget_encB, lookup_restrU, (inU x Hx).
       destruct (lookup b0 x) as [v|] eqn:Lv; cbn [option_map]; [|reflexivity]. rewrite (X x v Lv). cbn [option_map]. apply Nat.eqb_refl. }
@@ -269,21 +280,22 @@ Section CachedEval.
   Proof.
     intros AL H Hb S. destruct (asked_dec L AL) as (b0 & W & -> & D & _). unfold f in H. rewrite D in H.
     apply in_map_iff in H as ([b' fl] & E & H). cbn [fst snd] in E. injection E as <- <-.
-    unfold rel in Hb. apply in_map_iff in Hb as (bf & E & Hbf). injection E as <- <-.
-    pose proof (eval_in_dom h dom U c c_basic b0 true b' fl (wf_in_dom b0 W) H) as Db'.
+    apply in_rel in Hb as (bf & Hbf & _ & -> & ->).
+    pose proof (eval_in_dom h dom U c c_basic b0 ywf b' fl (wf_in_dom b0 W) H) as Db'.
     pose proof (sub_agrees b' bf Db' Hbf S) as Ab'.
-    pose proof (eval_ext h dom U c c_basic b0 true b' fl (env_of bf) H Ab') as Ab0.
-    now rewrite (row_flag b0 b' fl (env_of bf) Ab0 (prod_valid bf Hbf) H Ab').
+    pose proof (eval_ext h dom U c c_basic b0 ywf b' fl (env_of bf) H Ab') as Ab0.
+    now rewrite (proj1 (row_flag b0 b' fl (env_of bf) Ab0 (prod_valid bf Hbf) H Ab')).
   Qed.
 
   Lemma f_complete L b o : asked L -> In (b, o) rel -> compatible U b L = true -> exists r, In (r, o) (f L) /\ sub_on U r b = true.
   Proof.
     intros AL Hb C. destruct (asked_dec L AL) as (b0 & W & -> & D & _).
-    unfold rel in Hb. apply in_map_iff in Hb as (bf & E & Hbf). injection E as <- <-.
+    apply in_rel in Hb as (bf & Hbf & Hy & -> & ->).
     pose proof (compat_agrees b0 bf W Hbf C) as A0. pose proof (prod_valid bf Hbf) as V.
-    destruct (eval_cover h dom U dom_nodup c c_basic b0 true (env_of bf) A0 V) as [Cf Ct].
-    assert (X : exists b', In (b', negb (isat h dom c (env_of bf))) (eval h dom c b0 true) /\ agreesb U b' (env_of bf) = true).
-    { destruct (isat h dom c (env_of bf)); cbn [negb]; apply cover_ex; [rewrite Cf | rewrite Ct]; cbn; lia. }
+    destruct (eval_cover h dom U dom_nodup c c_basic b0 ywf (env_of bf) A0 V) as [Cf Ct].
+    assert (X : exists b', In (b', negb (isat h dom c (env_of bf))) (eval h dom c b0 ywf) /\ agreesb U b' (env_of bf) = true).
+    { destruct (isat h dom c (env_of bf)); cbn [negb]; apply cover_ex; [rewrite Cf; cbn; lia|].
+      rewrite Ct. rewrite Bool.orb_false_r in Hy. rewrite Hy. cbn. lia. }
     destruct X as (b' & I & Ab'). exists (encB (restrU b')). split.
     - unfold f. rewrite D. apply in_map_iff. exists (b', negb (isat h dom c (env_of bf))). now split.
     - now apply agrees_sub.
@@ -292,20 +304,29 @@ Section CachedEval.
   Lemma inhabited L L0 r o : asked L -> asked L0 -> In (r, o) (f L0) -> compatible U r L = true ->
     exists b o', In (b, o') rel /\ sub_on U (IndexedCache.merge U L r) b = true.
   Proof.
-    intros AL A0 H _. destruct (asked_dec L AL) as (bL & WL & -> & _ & _). destruct (asked_dec L0 A0) as (b0 & W0 & -> & D0 & _).
+    intros AL A0 H C. destruct (asked_dec L AL) as (bL & WL & -> & _ & _). destruct (asked_dec L0 A0) as (b0 & W0 & -> & D0 & _).
     unfold f in H. rewrite D0 in H. apply in_map_iff in H as ([b' fl] & E & H). cbn [fst snd] in E. injection E as <- <-.
-    pose proof (eval_in_dom h dom U c c_basic b0 true b' fl (wf_in_dom b0 W0) H) as Db'.
+    pose proof (eval_in_dom h dom U c c_basic b0 ywf b' fl (wf_in_dom b0 W0) H) as Db'.
     set (e := fun x => match lookup bL x with Some v => v | None => match lookup b' x with Some v => v | None => hd (VA ANone) (dom x) end end).
     set (bf := map (fun x => (x, e x)) U).
     assert (Hbf : In bf (prod U)).
     { apply in_prod. split; [unfold bf; rewrite map_map; apply map_id|]. intros k v I. unfold bf in I. apply in_map_iff in I as (x & E & Hx).
       injection E as <- <-. unfold e. destruct (lookup bL x) eqn:L1; [now apply (wf_in_dom bL WL x)|].
       destruct (lookup b' x) eqn:L2; [now apply (Db' x)|]. destruct (dom x) eqn:Dx; [now apply dom_ne in Hx | now left]. }
-    exists (encB bf), (flagn (negb (isat h dom c (env_of bf)))). split; [unfold rel; apply in_map_iff; now exists bf|].
     assert (Ee : forall x, In x U -> env_of bf x = e x).
     { intros x Hx. unfold env_of, bf. clear -Hx. induction U as [|y ys IH]; [destruct Hx|]. cbn [map lookup]. destruct (Nat.eqb x y) eqn:E.
       - apply Nat.eqb_eq in E. now subst.
       - apply IH. destruct Hx as [->|Hx]; [now rewrite Nat.eqb_refl in E | exact Hx]. }
+    (* the total assignment agrees with the row: where lookup and row both bind a variable they bind it alike *)
+    assert (Ab' : agreesb U b' (env_of bf) = true).
+    { unfold agreesb. apply forallb_forall. intros x Hx. destruct (lookup b' x) as [v|] eqn:Lv; [|reflexivity]. rewrite (Ee x Hx). unfold e.
+      destruct (lookup bL x) as [w|] eqn:Lw; [|rewrite Lv; apply val_eqb_refl].
+      unfold compatible in C. rewrite forallb_forall in C. specialize (C x Hx). rewrite !aget_encB, lookup_restrU, (inU x Hx), Lv, Lw in C.
+      cbn [option_map] in C. apply Nat.eqb_eq in C. apply val_eqb_eq.
+      apply (code_inj x); [now apply (wf_in_dom bL WL x) | now apply (Db' x) | now symmetry]. }
+    pose proof (eval_ext h dom U c c_basic b0 ywf b' fl (env_of bf) H Ab') as Ab0.
+    destruct (row_flag b0 b' fl (env_of bf) Ab0 (prod_valid bf Hbf) H Ab') as [_ Hy].
+    exists (encB bf), (flagn (negb (isat h dom c (env_of bf)))). split; [apply in_rel; now exists bf|].
     unfold sub_on. apply forallb_forall. intros x Hx. rewrite (merge_aget U _ _ x Hx), !aget_encB, lookup_restrU, (inU x Hx).
     rewrite (prod_lookup bf x Hbf Hx), (Ee x Hx). unfold e. cbn [option_map].
     destruct (lookup bL x) as [v|]; cbn [option_map]; [apply Nat.eqb_refl|]. destruct (lookup b' x) as [v|]; cbn [option_map]; [apply Nat.eqb_refl | reflexivity].
@@ -315,8 +336,8 @@ Section CachedEval.
   Proof.
     intros AL i j ri oi rj oj b Hi Hj Fb Si Sj. destruct (asked_dec L AL) as (b0 & W & -> & D & _). unfold f in Hi, Hj. rewrite D in Hi, Hj.
     rewrite nth_error_map in Hi, Hj.
-    destruct (nth_error (eval h dom c b0 true) i) as [[bi fi]|] eqn:Ni; [|discriminate]. cbn [option_map fst snd] in Hi. injection Hi as <- <-.
-    destruct (nth_error (eval h dom c b0 true) j) as [[bj fj]|] eqn:Nj; [|discriminate]. cbn [option_map fst snd] in Hj. injection Hj as <- <-.
+    destruct (nth_error (eval h dom c b0 ywf) i) as [[bi fi]|] eqn:Ni; [|discriminate]. cbn [option_map fst snd] in Hi. injection Hi as <- <-.
+    destruct (nth_error (eval h dom c b0 ywf) j) as [[bj fj]|] eqn:Nj; [|discriminate]. cbn [option_map fst snd] in Hj. injection Hj as <- <-.
     (* a total assignment read off b *)
     set (e := fun x => match aget b x with
                        | Some n => if Nat.ltb n (length (dom x)) then decode x n else hd (VA ANone) (dom x)
@@ -325,8 +346,8 @@ Section CachedEval.
     { intros x Hx. unfold e. assert (Hh : In (hd (VA ANone) (dom x)) (dom x)) by (destruct (dom x) eqn:Dx; [now apply dom_ne in Hx | now left]).
       destruct (aget b x) as [n|]; [|exact Hh]. destruct (Nat.ltb n (length (dom x))) eqn:Lt; [|exact Hh]. apply Nat.ltb_lt in Lt.
       unfold decode. now apply nth_In. }
-    assert (Ag : forall b' fl, In (b', fl) (eval h dom c b0 true) -> sub_on U (encB (restrU b')) b = true -> agreesb U b' e = true).
-    { intros b' fl I S. pose proof (eval_in_dom h dom U c c_basic b0 true b' fl (wf_in_dom b0 W) I) as Db'.
+    assert (Ag : forall b' fl, In (b', fl) (eval h dom c b0 ywf) -> sub_on U (encB (restrU b')) b = true -> agreesb U b' e = true).
+    { intros b' fl I S. pose proof (eval_in_dom h dom U c c_basic b0 ywf b' fl (wf_in_dom b0 W) I) as Db'.
       unfold agreesb. apply forallb_forall. intros x Hx. destruct (lookup b' x) as [v|] eqn:Lv; [|reflexivity].
       unfold sub_on in S. rewrite forallb_forall in S. specialize (S x Hx). rewrite aget_encB, lookup_restrU, (inU x Hx), Lv in S. cbn [option_map] in S.
       unfold e. destruct (aget b x) as [n|]; [|discriminate]. apply Nat.eqb_eq in S. subst n.
@@ -334,15 +355,15 @@ Section CachedEval.
       rewrite decode_code by (now apply (Db' x)). apply val_eqb_refl. }
     pose proof (nth_error_In _ _ Ni) as Ii. pose proof (nth_error_In _ _ Nj) as Ij.
     pose proof (Ag bi fi Ii Si) as Ai. pose proof (Ag bj fj Ij Sj) as Aj.
-    pose proof (eval_ext h dom U c c_basic b0 true bi fi e Ii Ai) as A0.
-    pose proof (row_flag b0 bi fi e A0 V Ii Ai) as Fi. pose proof (row_flag b0 bj fj e A0 V Ij Aj) as Fj.
+    pose proof (eval_ext h dom U c c_basic b0 ywf bi fi e Ii Ai) as A0.
+    pose proof (proj1 (row_flag b0 bi fi e A0 V Ii Ai)) as Fi. pose proof (proj1 (row_flag b0 bj fj e A0 V Ij Aj)) as Fj.
     destruct (Nat.eq_dec i j) as [E|Ne]; [exact E|]. exfalso.
-    destruct (eval_cover h dom U dom_nodup c c_basic b0 true e A0 V) as [Cf Ct].
-    assert (G : 2 <= cover U fi (eval h dom c b0 true) e).
+    destruct (eval_cover h dom U dom_nodup c c_basic b0 ywf e A0 V) as [Cf Ct].
+    assert (G : 2 <= cover U fi (eval h dom c b0 ywf) e).
     { unfold cover. apply (two_in_filter _ _ i j (bi, fi) (bj, fj) Ni Nj Ne); cbn [fst snd].
       - now rewrite Bool.eqb_reflx, Ai.
       - rewrite Fj, <- Fi. now rewrite Bool.eqb_reflx, Aj. }
-    destruct fi; [rewrite Ct in G | rewrite Cf in G]; destruct (isat h dom c e); cbn in G; lia.
+    destruct fi; [rewrite Ct in G | rewrite Cf in G]; destruct ywf, (isat h dom c e); cbn in G; lia.
   Qed.
 
   (* ---------- the cached evaluation of c, over ANY history of incoming bindings ---------- *)
